@@ -176,11 +176,11 @@ bool gp_bytes_is_valid(
     size_t* invalid_index)
 {
     const uint8_t* str = _str;
-    const size_t align_offset = (uintptr_t)str     % 8;
+    const size_t align_offset = gp_min((size_t)((uintptr_t)str % 8), n); // n - align_offset can't wrap
     const size_t remaining    = (n - align_offset) % 8;
     size_t i = 0;
 
-    for (size_t len = gp_min(align_offset, n); i < len; i++) {
+    for (size_t len = align_offset; i < len; i++) {
         if (str[i] & 0x80) {
             if (invalid_index != NULL)
                 *invalid_index = i;
